@@ -104,6 +104,8 @@ type mstream struct {
 	state int
 	atUp  bool // request arrived at the upstream
 	open  bool // request unanswered at the upstream (may outlive the stream)
+	// retried: a later lease has been made with this stream's request context (the proxy's retry)
+	retried bool
 }
 
 type run struct {
@@ -1255,6 +1257,25 @@ func (r *run) do(op Op) (f *failure, skipped bool) {
 	switch op.K {
 	case "lease":
 		return r.lease(), false
+	case "retry-lease":
+		// the proxy's retry: the next attempt of a request whose previous attempt has ended (answered, reset, connection
+		// lost) is leased with the SAME request context, i.e. the pool meets the per-request objects of the ended attempt
+		var c []*mstream
+		for _, s := range r.strs {
+			if s.state != sActive && !s.retried && s.st != nil && s.st.State().Destroyed > 0 {
+				c = append(c, s)
+			}
+		}
+		if len(c) > 0 {
+			s := c[pick(len(c), op.A)]
+			s.retried = true
+			r.rig.RetryCtx = s.st.Ctx()
+			r.class("retry-lease")
+			r.logf("retry-lease: next lease reuses the request context of %s", s.token)
+		}
+		f := r.lease()
+		r.rig.RetryCtx = nil
+		return f, false
 	case "reply", "reply-close":
 		c := r.replyable()
 		if len(c) == 0 {
